@@ -110,6 +110,11 @@ var extraTexts = []string{
 	"set_tx_meta(\"k\", 1, max, 2)", "set_tx_meta(\"k\", 1, ,, 2)", "set_tx_meta(\"k\", 1, =, 2, 3)", "set_account_meta(@a, \"k\", 1, from to, 2)", "vars { monetary $b = balance(@a, USD/2, =, 3) }\nsend $b (source=@world destination=@d)",
 	"set_tx_meta(\"k\", \"a\" + )", "set_tx_meta(\"k\", @a - ", "set_account_meta(@a, \"k\", USD/2 - )", "foo(10% + )", "vars { account $acc }\nset_tx_meta(\"k\", $acc + )", "set_tx_meta(\"k\", 1 + )", "set_tx_meta(\"k\", + 1)",
 	"send [USD 1 + ] (source=@a destination=@b)", "send [USD 1] (source = max [USD 1] + from @a destination=@b)", "send [USD 1] (source=@a destination={ max [USD 1] - to @b remaining kept })",
+	// holes (elements the parser could not build) inside lists, after an unbounded source / before a target
+	"send [USD 1] ( source = { @world\n @fees allowing } destination = @d )", "send [USD 1] ( source = { @world [ } destination = @d )", "send [USD 1] (\n source = {\n  @world\n  @a +",
+	"send [USD 1] ( source = { @a allowing unbounded overdraft max from } destination = @d )", "send [USD 1] ( source = { @world max [USD 1] from } destination = @d )", "send [USD *] ( source = { @a @world 1/2 } destination = @d )",
+	"vars { monetary $c }\nsend [USD 1] ( source = @a destination = { max $c remaining to @b } )", "vars { monetary $c }\nsend [USD 1] ( source = @a destination = { max $c to @b max [USD 5] } )", "send [USD 1] ( source = @a destination = { 1/2 } )",
+	"vars { portion $p }\nsend [USD 1] ( source = @a destination = { $p to @b 1/2 } )", "send [USD 1] ( source = @a destination = { 1/2 to @b remaining } )", "send [USD 1] ( source = @a destination = { max [USD 1] to remaining kept } )",
 	"send $x ( source = $y destination = $z )", "vars { account $a account $a } send [USD *] ( source = $a destination = $a )",
 	"send [USD 1] ( source = @a destination = @b ) é", "set_tx_meta(\"é\", \"ü\")", "vars { string $é }", "send [USD 1 (", "send ] (", "} } }", "$ $ $", "@ @", "[ ] [", "max max max", "remaining", "kept",
 }
@@ -142,8 +147,8 @@ func init() {
 			return cases
 		},
 		Bounds: stdBounds(
-			map[string]interface{}{"texts": "every 9th prefix / token deletion / token duplication / bracket edit and every 97th insertion/replacement of a token from a 20-token alphabet, of 27 scripts, + 70 hand-written broken texts", "cursor": "every (line, character) with 0 <= line, character <= 2^30 (symbolic)", "map_orders": "per path one ranged map of the checker (each in turn; two in the thorough tier) takes every iteration order (<= 3 entries; larger: identity/reverse/rotation), the others insertion order"},
-			map[string]interface{}{"texts": "every prefix / token deletion / token duplication / bracket edit and every 7th insertion/replacement from a 20-token alphabet, of 78 scripts, + 70 broken texts", "cursor": "symbolic", "map_orders": "all (<= 3 entries)"}),
+			map[string]interface{}{"texts": "every 9th prefix / token deletion / token duplication / bracket edit and every 97th insertion/replacement of a token from a 20-token alphabet, of 27 scripts, + 82 hand-written broken texts", "cursor": "every (line, character) with 0 <= line, character <= 2^30 (symbolic)", "map_orders": "per path one ranged map of the checker (each in turn; two in the thorough tier) takes every iteration order (<= 3 entries; larger: identity/reverse/rotation), the others insertion order"},
+			map[string]interface{}{"texts": "every prefix / token deletion / token duplication / bracket edit and every 7th insertion/replacement from a 20-token alphabet, of 78 scripts, + 82 broken texts", "cursor": "symbolic", "map_orders": "all (<= 3 entries)"}),
 		Assumptions: []string{
 			"SCOPED CLAIM: the text dimension is a bounded corpus (the map from text to partial tree is ANTLR error recovery, outside the encoding); the solver quantifies over cursor positions and map iteration orders on each parser-produced tree",
 			"parser.Parse runs natively; a native parser panic on a corpus text is skipped here (it belongs to C14)",
